@@ -7,7 +7,9 @@ package main
 // blob loader (trees are real tree JSON addressed by their SHA-256, so shared
 // subtrees have equal IDs).  The second tree is an edited copy of the first:
 // additions, removals, content / metadata / type changes at all depths,
-// including directory <-> non-directory changes (kind "kindchange": F-C53).
+// including directory <-> non-directory changes (kind "kindchange": regression cases
+// for the former defect F-C53, fixed in /repo: the paths below the directory must be
+// listed as removed / added).
 // Observable: the sequence of printChange calls (modifier, path).
 
 import (
@@ -388,10 +390,16 @@ func engineC53(c *vctx) error {
 		t3[1].ty = 3
 		t3[1].content = nil
 		emit("edits", base, t3, sm)
-		// F-C53: directory replaced by a file and file replaced by a directory
+		// former F-C53: directory replaced by a file and file replaced by a directory
 		k1 := []*c53Node{d(1, f(1, 1), d(2, f(1, 2))), f(2, 4)}
 		k2 := []*c53Node{f(1, 7), d(2, f(5, 1))}
 		emit("kindchange", k1, k2, sm)
+		emit("kindchange", k2, k1, sm)
+		// dir -> symlink with nested dirs below, and fifo -> dir
+		k3 := []*c53Node{d(1, d(1, d(1, f(1, 1)), f(2, 2)), f(3)), {name: 2, ty: 3}}
+		k4 := []*c53Node{{name: 1, ty: 2}, d(2, f(1, 3), d(2))}
+		emit("kindchange", k3, k4, sm)
+		emit("kindchange", k4, k3, sm)
 	}
 	rounds := c.n(420, 5000)
 	for r := 0; r < rounds; r++ {
